@@ -16,6 +16,7 @@ EXPLANATION = (
   "print (skeleton extracted from the f-strings, all separator choices, sample field values including 3-digit hours) is accepted by "
   "the patterns SmpteTimeCode.parse / ClockTime.parse try, in their order, with every named group recovering the printed field. "
   "The numeric identities (frames->label->frames, drop-frame skipping, monotonicity, 0.5 ms bound) are not decided."
+  " (STATE-alias / STATE-global) no function of the anchored modules mutates a module- or class-level container, rebinds module / class state or mutates a mutable default argument, so a result never depends on earlier calls;"
 )
 RULE_TEXT = "EXA: one instance per truncation / time sink call site; FMT: one instance per printer branch x separator choice x sample vector"
 UNDECIDED = ["frames -> label -> frames identity", "label validity and drop-frame label skipping", "monotonicity of successive frame counts",
